@@ -110,7 +110,7 @@ pub fn run(case: &WakeCase, ctx: &mut Ctx) -> Vec<&'static str> {
     let afd = world.fd(fd);
     let ring_fd = world.ring_fd;
     let mut next_tag = 0u64;
-    let mut new_slot = |next_tag: &mut u64| -> Slot {
+    let new_slot = |next_tag: &mut u64| -> Slot {
         let tag = TAG_BASE + *next_tag;
         *next_tag += 1;
         let f = {
